@@ -155,6 +155,12 @@ Definition ext := extract str json_str_de form_s_de mres multer_model.
 Inductive fcut := KData (n : N) | KTrailers | KErr.
 Definition ds (l : list N) : list fcut := map KData l.
 
+(* run-length notation for long lists of sizes: [(n, k)] is k copies of n
+   (a 64 KiB body sent in 1-byte chunks is seen as tens of thousands of
+   frames; the literal list would overflow coqc's parser stack) *)
+Definition rl (l : list (N * N)) : list N :=
+  flat_map (fun p => repeat (fst p) (N.to_nat (snd p))) l.
+
 Fixpoint frames_of (body : str) (cuts : list fcut) : list frame :=
   match cuts with
   | [] => []
